@@ -11,13 +11,25 @@ DEFAULT = {
 OVERRIDE = {
 }
 
+COMMON_ASSUME = [
+    "long double reference arithmetic; rounding constants c=16 (real) / 32 (complex) in c*n*eps*|L||U| (DESIGN.md section 4)",
+    "clang ASan+UBSan build of /repo's SRC, CBLAS and FORTRAN bridge; allocation ledger through USER_MALLOC/USER_FREE/USER_ABORT; replacement sp_ienv",
+]
+COMMON_NOTE = ("Trusted: the harness's dense long-double reference, the choice-stream decoder, clang's sanitizers. "
+               "Exploration only: the property is shown to hold on the generated cases (counts in the evidence file), nothing is proved.")
+
 INFO = {
-    "C02": dict(level="exploration", assumptions=[
-        "rounding constants c=16 (real) / 32 (complex) in c*n*eps*|L||U| (DESIGN.md section 4)",
-        "long double reference arithmetic", "ASan+UBSan clang build of /repo's SRC, CBLAS; ledger via USER_MALLOC/USER_FREE"]),
+    "C01": dict(level="exploration", assumptions=COMMON_ASSUME, note=COMMON_NOTE,
+                technique="property-based testing (rapidcheck) with a componentwise residual oracle derived from the returned factors",
+                text="Generated square systems in both storage orientations, all orderings/thresholds/tunings and 4 arithmetic types are solved by the simple driver; every returned X is checked against the componentwise bound c*n*eps*(|L||U| permuted back)|X| + n*eps*|B| computed in long double."),
+    "C02": dict(level="exploration", assumptions=COMMON_ASSUME, note=COMMON_NOTE,
+                technique="property-based testing (rapidcheck) with a dense long-double reconstruction oracle |Pr*A*Pc-L*U| <= c*n*eps*|L||U| plus pivot-rule predicates",
+                text="Generated m x n matrices (15 pattern x 7 value families, all orderings, thresholds, tunings, 4 types) are factored and the returned factors are checked entrywise against the definition; exploration is the right level because the property quantifies over an unbounded input space with a cheap exact oracle."),
 }
 
-PROPS = ["C02"]
+NOT_APPLICABLE = {}
+
+PROPS = ["C01", "C02"]
 
 
 def all_props():
